@@ -292,6 +292,15 @@ func (r *Runner) reader() {
 				continue
 			}
 		}
+		// a defect the harness established on the implementation's own output (a member named "..._defect": "clause: detail")
+		if dv, has := findDefect(c.Impl); has {
+			cl := dv
+			if i := strings.Index(dv, ":"); i > 0 {
+				cl = dv[:i]
+			}
+			r.addProblem(&Problem{Kind: "spec", Clause: cl, Case: c, Model: model, Detail: dv})
+			continue
+		}
 		if ok, where := subsetEqual(c.Impl, model); !ok {
 			r.addProblem(&Problem{Kind: "disagree", Clause: where, Case: c, Model: model})
 		}
@@ -341,6 +350,30 @@ func findPanic(v any) (string, bool) {
 	case []map[string]any:
 		for _, e := range x {
 			if s, ok := findPanic(e); ok {
+				return s, true
+			}
+		}
+	}
+	return "", false
+}
+
+// findDefect: a member named "..._defect" with a non-empty string value, anywhere in v
+func findDefect(v any) (string, bool) {
+	switch x := v.(type) {
+	case map[string]any:
+		for k, e := range x {
+			if strings.HasSuffix(k, "_defect") {
+				if s, ok := e.(string); ok && s != "" {
+					return s, true
+				}
+			}
+			if s, ok := findDefect(e); ok {
+				return s, true
+			}
+		}
+	case []any:
+		for _, e := range x {
+			if s, ok := findDefect(e); ok {
 				return s, true
 			}
 		}
